@@ -339,6 +339,7 @@ func checkC19Draw(c *Ctx, p *Prog) {
 		return s == "drawCell"
 	}, 1)
 	checkDrawCellWidth(c, p, fn, "C19-R5")
+	checkResolvedStyle(c, p, fn, "C19-R5")
 	// palette table
 	tp := p.pkg("")
 	obj := tp.Types.Scope().Lookup("palette")
